@@ -99,4 +99,10 @@ CHECKS = {
         design_ref="DESIGN.md §4 C13",
         note="Alias catalogue restated in vf/props/c13.py from the statement and the XLSForm docs. Translations and item children are compared order-insensitively under column permutation. One genuine defect fixed in /repo.",
     ),
+    "C12": dict(
+        technique="property-based differential testing: each generated workbook is rendered as md, csv, xlsx/xlsm (openpyxl) and xls (own BIFF8 writer) with generated cell-typing and layout noise and delivered through generated channels; (xform, warnings, itemsets) must be byte-equal to the dict rendering of the canonical text",
+        text="Random forms with planted number/boolean-looking cells x 5 containers x 6 delivery channels x explicit/implicit file_type x spreadsheet noise (typed int/integral float/decimal/bool cells, padding incl. NBSP/tab/newline, inner NBSP, header padding, trailing empty rows/columns, blank-row runs up to 60 and blank-column runs up to 20 with the boundaries weighted). A path delivery must additionally supply the default id from its stem. The run is inconclusive (exit 2) if any container, channel or noise class was never exercised.",
+        design_ref="DESIGN.md §4 C12",
+        note=".xls files come from our own BIFF8/OLE2 writer (LABEL, LABELSST, NUMBER, RK, MULRK, BOOLERR, BLANK records). Markdown/CSV are compared on the noise-free workbook. Two genuine defects found here were fixed in /repo.",
+    ),
 }
